@@ -401,6 +401,8 @@ impl<T: Sync + Send + 'static> Nucleo<T> {
         let mut inner = if canceled {
             self.pattern.reset_status();
             self.canceled.store(true, atomic::Ordering::Relaxed);
+            #[cfg(nucleo_verif)]
+            crate::verif::point("tick.cancel_lock", 0);
             self.worker.lock_arc()
         } else {
             let Some(worker) = self.worker.try_lock_arc_for(Duration::from_millis(timeout)) else {
